@@ -155,6 +155,15 @@ fn lonlat_to_estimate(lonlat: LonLat, resolution: i32) -> Result<A5Cell, String>
 
 /// Get the pentagon shape for a given A5 cell
 pub fn get_pentagon(cell: &A5Cell) -> Result<PentagonShape, String> {
+    // The world cell (resolution -1) is the whole sphere and has no outline; a negative curve depth
+    // below would be cast to a huge usize and s_to_anchor would allocate without bound
+    if cell.resolution < FIRST_HILBERT_RESOLUTION - 2 {
+        return Err(format!(
+            "Resolution ({}) has no pentagon shape",
+            cell.resolution
+        ));
+    }
+
     let (quintant, orientation) = segment_to_quintant(cell.segment, cell.origin());
 
     if cell.resolution == FIRST_HILBERT_RESOLUTION - 1 {
@@ -266,6 +275,11 @@ pub fn cell_to_boundary(
 /// Test if an A5 cell contains a given point
 pub fn a5cell_contains_point(cell: &A5Cell, point: LonLat) -> Result<f64, String> {
     use crate::core::tiling::{get_face_vertices, get_quintant_vertices};
+
+    // The world cell contains every point
+    if cell.resolution < FIRST_HILBERT_RESOLUTION - 2 {
+        return Ok(1.0);
+    }
 
     let spherical = from_lon_lat(point);
     let dodecahedron = DodecahedronProjection::get_thread_local();
